@@ -6,8 +6,8 @@ import os
 
 from . import common
 from . import hevcgen as H
-from . import cliref as F
-from . import clirun as R
+from . import hevcref as F
+from . import hevcrun as R
 
 HOOK = "DOVI_TOOL_VERIF_CHUNK_SIZE"
 REAL_CHUNK = 100000
@@ -141,11 +141,15 @@ def run(ctx):
     rpus_all = [r for r, _ in pool]
     small = sorted(rpus_all, key=len)[:320]
     conv = F.Conv()
+    uni = F.universal_rpus(conv, rpus_all)
+    uni_small = sorted(uni, key=len)[:320]
+    ctx.count("rpu_pool", len(rpus_all))
+    ctx.count("rpu_pool_convertible_in_every_mode", len(uni))
     ejobs, ijobs = [], []
     streams = []
-    n_ext = 120 if quick else 2500
-    n_inj = 90 if quick else 1800
-    n_wrap = 3 if quick else 30
+    n_ext = 400 if quick else 5000
+    n_inj = 300 if quick else 4000
+    n_wrap = 4 if quick else 40
 
     def new_stream(r, nfr, pb, rp, **kw):
         specs = H.gen_structure(r, nfr, poc_bits=pb, max_minigop=r.choice([1, 3, 8, 8, 15]), period_len=(1, r.choice([6, 24, 60])),
@@ -198,7 +202,10 @@ def run(ctx):
         r = rng.fork("ext%d" % i)
         pb = r.choice([4, 4, 5, 8, 8, 16])
         nfr = r.choice([1, 2, 3, 5, 9, 17, 30, 48, 64])
-        rp = r.shuffle(small if nfr > 30 else rpus_all)[:nfr]
+        if r.chance(5, 6) and len(uni) >= nfr:
+            rp = r.shuffle(uni_small if nfr > 30 and len(uni_small) >= nfr else uni)[:nfr]
+        else:
+            rp = r.shuffle(small if nfr > 30 else rpus_all)[:nfr]
         st, base = new_stream(r, nfr, pb, rp)
         if st.size() > REAL_CHUNK - 3000:
             continue
@@ -297,7 +304,7 @@ def run(ctx):
                 ctx.count("outcome=" + ("FAIL" if o["fail"] else o.get("class", "ok")))
                 if not o["fail"] and o.get("class") == "ok" and reordered(st):
                     ctx.nontriv("%d/%s" % (j["sid"], name))
-                if k % 29 == 0:
+                if k % 131 == 0:
                     ctx.sample("stream#%d (%d frames, display order %s..): %s -> %s" % (
                         j["sid"], len(st.aus), st.display_order()[:12], " && ".join(x.replace(work.dir, "$W") for x in o["cmds"]), o.get("class")))
                 if o["fail"]:
